@@ -27,6 +27,21 @@ type credCase struct {
 	Fields  map[string]string `json:"fields"` // base64 values; keys: protocol host path username password wwwauth[] state[]
 	ViaURL  bool              `json:"via_url"`
 	Prior   bool              `json:"prior"` // the context first serves another URL whose URL-scoped setting switches protection off
+	Shape   map[string][]int  `json:"shape"` // multi-valued field -> [n, k]: n entries, the given value being entry k (1-based), "x" elsewhere
+}
+
+// entries expands a multi-valued field into its list
+func (c credCase) entries(k, v string) []string {
+	sh, ok := c.Shape[k]
+	if !ok || len(sh) != 2 {
+		return []string{v}
+	}
+	out := make([]string, sh[0])
+	for i := range out {
+		out[i] = "x"
+	}
+	out[sh[1]-1] = v
+	return out
 }
 type credResult struct {
 	ID       int    `json:"id"`
@@ -88,10 +103,10 @@ func credOne(c credCase, shimDir string) (r credResult) {
 		}
 	}
 	if v, ok := f["wwwauth[]"]; ok {
-		ctx.SetWWWAuthHeaders([]string{v})
+		ctx.SetWWWAuthHeaders(c.entries("wwwauth[]", v))
 	}
 	if v, ok := f["state[]"]; ok {
-		ctx.SetStateFields([]string{v})
+		ctx.SetStateFields(c.entries("state[]", v))
 	}
 	if c.Prior {
 		pu, _ := url.Parse("https://prior.example.com/other/repo.git")
